@@ -93,9 +93,15 @@ Fixpoint first_free (fuel m : nat) (used : list nat) : nat :=
   | Datatypes.S f => if memn m used then first_free f (Datatypes.S m) used else m
   end.
 Definition get_ring_marker (used : list nat) : nat := first_free (Datatypes.S (length used)) 1 used.
-(** str(marker) if marker < 10 else '%{}'.format(marker) *)
-Definition marker_text (m : nat) : pystr :=
-  if (m <? 10)%nat then str_of_nat m else "%"%char :: str_of_nat m.
+(** '%{:02d}'.format(marker) *)
+Definition pct_text (m : nat) : pystr :=
+  "%"%char :: (if (m <? 10)%nat then "0"%char :: str_of_nat m else str_of_nat m).
+(** if marker < 10 and not after_pct: str(marker)  else: '%{:02d}'.format(marker)   (fix b681517) *)
+Definition marker_text (after_pct : bool) (m : nat) : pystr :=
+  if (m <? 10)%nat && negb after_pct then str_of_nat m else pct_text m.
+(** the flag after_pct of the ring loop at one node, as a function of the markers written on the node so far:
+    it is set by the first marker written in the % form, and that one is the first marker >= 10 *)
+Definition after_pct (trc : list nat) : bool := existsb (fun m => (10 <=? m)%nat) trc.
 
 (** Python numeric equality of an attribute value with a small integer (1 == 1.0 == True) *)
 Definition num_is (v : pyval) (k : Z) : bool :=
@@ -152,12 +158,22 @@ Definition py_format (v : pyval) : res pystr :=
   | VBool b => Ok (if b then S "True" else S "False")
   | _ => Err EType   (* containers: their repr is not modelled (outside every generator) *)
   end.
-(** write_cgsmiles.format_node *)
-Definition format_node (g : graph) (k : Z) : res pystr :=
+(** write_cgsmiles.format_node(molecule, current, name_attr): the default of .get is evaluated first, so a node
+    without fragname is a KeyError whatever name_attr is (fix 6d8cc68) *)
+Definition format_node_by (name_attr : pystr) (g : graph) (k : Z) : res pystr :=
   a <- node_attrs g k ;;
-  v <- of_option (aget (S "fragname") a) EKey ;;
-  t <- py_format v ;;
+  dflt <- of_option (aget (S "fragname") a) EKey ;;
+  t <- py_format (match aget name_attr a with Some v => v | None => dflt end) ;;
   Ok (S "[#" ++ t ++ S "]").
+(** name_attr='fragname', the default *)
+Definition format_node (g : graph) (k : Z) : res pystr := format_node_by (S "fragname") g k.
+Lemma format_node_eq g k :
+  format_node g k = (a <- node_attrs g k ;; v <- of_option (aget (S "fragname") a) EKey ;; t <- py_format v ;;
+                     Ok (S "[#" ++ t ++ S "]")).
+Proof.
+  unfold format_node, format_node_by. destruct (node_attrs g k) as [a|e]; [|reflexivity]. cbn [bind].
+  destruct (aget (S "fragname") a); reflexivity.
+Qed.
 
 (** if molecule.nodes[current].get('bonding', False): smiles += format_bonding(...) *)
 Fixpoint strs_of (l : list pyval) : res (list pystr) :=
@@ -230,8 +246,8 @@ Definition ring_step (env : wenv) (st : list (nat * nat) * pystr * list nat) (ri
   sym <- e_rsym env (fst bond) (snd bond) ;;
   match mk_get ri marks with
   | None => let m := get_ring_marker (map snd marks) in
-            Ok (marks ++ [(ri, m)], out ++ sym ++ marker_text m, trc ++ [m])
-  | Some m => Ok (mk_del ri marks, out ++ marker_text m, trc ++ [m])
+            Ok (marks ++ [(ri, m)], out ++ sym ++ marker_text (after_pct trc) m, trc ++ [m])
+  | Some m => Ok (mk_del ri marks, out ++ marker_text (after_pct trc) m, trc ++ [m])
   end.
 Fixpoint ring_loop (env : wenv) (st : list (nat * nat) * pystr * list nat) (ris : list nat) :=
   match ris with
@@ -305,8 +321,22 @@ Definition mk_env (sf : bool) (fmt : Z -> res pystr) (sym rsym : Z -> Z -> res p
   {| e_smiles := sf; e_fmt := fmt; e_sym := sym; e_rsym := rsym; e_succ := succ; e_pred := pred_of succ;
      e_rings := ring_tables tr; e_tr := tr |}.
 
-(** write_graph(molecule, smiles_format) given the transcript [tr] of list(total_edges - edges);
-    [default_h] is only consulted when smiles_format is true *)
+(** write_graph(molecule, smiles_format, name_attr=...) given the transcript [tr] of list(total_edges - edges);
+    [default_h] is only consulted when smiles_format is true, [name_attr] only when it is false *)
+Definition node_text_by (name_attr : pystr) (smiles_format : bool) (default_h : Z -> bool) (g : graph) (k : Z) : res pystr :=
+  t <- (if smiles_format then format_atom g default_h k else format_node_by name_attr g k) ;;
+  b <- bonding_suffix g k ;; Ok (t ++ b).
+Definition write_graph_full_by (name_attr : pystr) (smiles_format : bool) (default_h : Z -> bool) (g : graph)
+    (tr : list (Z * Z)) : res wres :=
+  start <- min_node g ;;
+  tree <- dfs_edges g start ;;
+  run_writer (length g)
+    (mk_env smiles_format (node_text_by name_attr smiles_format default_h g) (edge_text g) (edge_text g) tree tr)
+    start.
+Definition write_graph_by (name_attr : pystr) (smiles_format : bool) (default_h : Z -> bool) (g : graph)
+    (tr : list (Z * Z)) : res pystr :=
+  r <- write_graph_full_by name_attr smiles_format default_h g tr ;; Ok (r_text r).
+(** name_attr='fragname', the default *)
 Definition node_text (smiles_format : bool) (default_h : Z -> bool) (g : graph) (k : Z) : res pystr :=
   t <- (if smiles_format then format_atom g default_h k else format_node g k) ;;
   b <- bonding_suffix g k ;; Ok (t ++ b).
@@ -318,6 +348,12 @@ Definition write_graph_full (smiles_format : bool) (default_h : Z -> bool) (g : 
     start.
 Definition write_graph (smiles_format : bool) (default_h : Z -> bool) (g : graph) (tr : list (Z * Z)) : res pystr :=
   r <- write_graph_full smiles_format default_h g tr ;; Ok (r_text r).
+Lemma node_text_default sf dh g k : node_text_by (S "fragname") sf dh g k = node_text sf dh g k.
+Proof. reflexivity. Qed.
+Lemma write_graph_full_default sf dh g tr : write_graph_full_by (S "fragname") sf dh g tr = write_graph_full sf dh g tr.
+Proof. reflexivity. Qed.
+Lemma write_graph_default sf dh g tr : write_graph_by (S "fragname") sf dh g tr = write_graph sf dh g tr.
+Proof. reflexivity. Qed.
 (** CGsmiles nodes (smiles_format=False) *)
 Definition write_graph_cg (g : graph) (tr : list (Z * Z)) : res pystr := write_graph false (fun _ => true) g tr.
 (** write_cgsmiles_graph *)
@@ -331,7 +367,7 @@ Fixpoint write_fragments_body (smiles_format : bool) (l : list frag_entry) : res
   match l with
   | [] => Ok []
   | (name, g, tr, dh) :: r =>
-      t <- write_graph smiles_format (fun k => memz k dh) g tr ;;
+      t <- write_graph_by (S "atomname") smiles_format (fun k => memz k dh) g tr ;;
       rest <- write_fragments_body smiles_format r ;;
       Ok (S "#" ++ name ++ S "=" ++ t ++ S "," ++ rest)
   end.
